@@ -42,6 +42,7 @@ fn dispatch(cmd: &str, args: &[&str]) -> String {
         "serdej" => serde_rt::run_json(args),
         "ghwslices" => slice::run_ghw(args),
         "ghwaliases" => slice::run_aliases(args),
+        "canonfile" => slice::run_canonfile(args),
         "detectc" => detect::run_cursor(args),
         "vcd" => vcd::run_vcd(args),
         "file" => vcd::run_file(args),
